@@ -399,10 +399,14 @@ type bfsScenario struct {
 	Pauses  int      `json:"pauses"`
 	Delete  bool     `json:"delete"`
 	Holds   []string `json:"holds"`
+	// Conflicts / PhaseDeletes: budgets of foreign writes landing before a write of a pass, and
+	// of a third party deleting an ObjectSetPhase object
+	Conflicts    int `json:"conflicts"`
+	PhaseDeletes int `json:"phaseDeletes"`
 }
 
 func (sc bfsScenario) name() string {
-	return fmt.Sprintf("delegated phases=%d mask=%03b statuses=%d pauses=%d delete=%v holds=%v", sc.N, sc.Mask, len(sc.Classes), sc.Pauses, sc.Delete, sc.Holds)
+	return fmt.Sprintf("delegated phases=%d mask=%03b statuses=%d pauses=%d delete=%v holds=%v conflicts=%d phaseDeletes=%d", sc.N, sc.Mask, len(sc.Classes), sc.Pauses, sc.Delete, sc.Holds, sc.Conflicts, sc.PhaseDeletes)
 }
 
 func bfsSystem(sc bfsScenario) *world.System {
@@ -415,6 +419,8 @@ func bfsSystem(sc bfsScenario) *world.System {
 			w.Budget["user-pause"] = sc.Pauses
 			w.Budget["delete"] = 1
 			w.Budget["hold"] = 1
+			w.Budget["conflict"] = sc.Conflicts
+			w.Budget["phase-delete"] = sc.PhaseDeletes
 			return w
 		},
 		Events: func(w *world.World) []world.Event {
@@ -422,6 +428,19 @@ func bfsSystem(sc bfsScenario) *world.System {
 			evs = append(evs, osw.PauseEvents(w, "r1")...)
 			evs = append(evs, osw.ReleaseEvents(w)...)
 			evs = append(evs, osw.GCEvent(w)...)
+			evs = append(evs, osw.ConflictEventsAll(w)...)
+			if w.Budget["phase-delete"] > 0 {
+				for _, k := range w.S.SortedKeys() {
+					if k.Kind == "ObjectSetPhase" && !kmodel.Terminating(w.S.Objs[k].Content) {
+						k := k
+						evs = append(evs, world.Event{Name: "third-party:delete-phase-object:" + k.Name, Apply: func(w *world.World) *world.Pass {
+							w.Budget["phase-delete"]--
+							_ = w.S.Delete(k, kmodel.DeleteOpts{})
+							return nil
+						}})
+					}
+				}
+			}
 			os := w.S.Objs[osw.OSKey("r1")]
 			if sc.Delete && os != nil && !kmodel.Terminating(os.Content) && w.Budget["delete"] > 0 {
 				evs = append(evs, world.Event{Name: "user:delete:r1", Apply: func(w *world.World) *world.Pass {
@@ -457,6 +476,7 @@ func bfsScenarios(quick bool) []bfsScenario {
 		{N: 2, Mask: 0b01, Classes: two, Pauses: 1, Delete: true, Holds: []string{"b"}},
 		{N: 2, Mask: 0b10, Classes: two, Delete: true, Holds: []string{"g"}},
 		{N: 2, Mask: 0b11, Classes: []string{"ready"}, Pauses: 1, Delete: true},
+		{N: 2, Mask: 0b10, Classes: []string{"ready"}, Delete: true, Conflicts: 1, PhaseDeletes: 1},
 	}
 	if !quick {
 		out = append(out,
@@ -470,7 +490,7 @@ func bfsScenarios(quick bool) []bfsScenario {
 
 func runBFS(o checks.Opts) *report.Report {
 	rep := report.New("C15", "bfs")
-	rep.Rule = "explicit-state BFS over delegated layouts: reconcile(ObjectSet, each ObjectSetPhase) in any order, workload status changes, user pause/unpause and delete (with foreign finalizers on some objects), finalizer release, garbage collector; on every ObjectSet pass the structural monitor (exactly the expected ObjectSetPhase objects, carrying the phase's objects, probes, revision, previous list, paused state and class) and the gating (C03), teardown-order (C04) and status-claim (C06) monitors"
+	rep.Rule = "explicit-state BFS over delegated layouts: reconcile(ObjectSet, each ObjectSetPhase) in any order, workload status changes, user pause/unpause and delete (with foreign finalizers on some objects), finalizer release, garbage collector, a foreign write landing before write i of a pass, a third party deleting a phase object; on every ObjectSet pass the structural monitor (exactly the expected ObjectSetPhase objects, carrying the phase's objects, probes, revision, previous list, paused state and class) and the gating (C03), teardown-order (C04) and status-claim (C06) monitors"
 	scs := bfsScenarios(o.Quick())
 	rep.Bounds["systems"] = len(scs)
 	for i, sc := range scs {
